@@ -11,7 +11,7 @@ import re, sys, os
 sys.path.insert(0, os.path.join(os.path.dirname(__file__), "..", "..", "lib"))
 from rustscan import *
 
-VARS = {"chunk_size": "cs", "chunk_min_size": "mn", "chunk_max_size": "mx"}
+VARS = {"chunk_size": "cs", "chunk_min_size": "mn", "chunk_max_size": "mx", "degree": "d"}
 
 
 class P:
@@ -117,6 +117,20 @@ def conditions(body, consts):
     return res
 
 
+def repo_cdc(repo):
+    """directory of the vendored rustic_cdc the lock file names (None if not found)."""
+    import glob
+    try:
+        lock = open(repo + "/Cargo.lock").read()
+    except FileNotFoundError:
+        return None
+    m = re.search(r'name = "rustic_cdc"\s*\nversion = "([^"]+)"', lock)
+    if not m:
+        return None
+    c = glob.glob(os.path.expanduser("~/.cargo/registry/src/*/rustic_cdc-%s" % m.group(1)))
+    return c[0] if c else None
+
+
 def gen(repo):
     rab = read(repo, "crates/core/src/chunker/rabin.rs")
     chk = read(repo, "crates/core/src/chunker.rs")
@@ -129,7 +143,7 @@ def gen(repo):
     if not cm:
         raise ExtractError("mod constants not found in chunker/rabin.rs")
     cmod = rab[cm.end() - 1:match_brace(rab, cm.end() - 1)]
-    for m in re.finditer(r"\bconst\s+(\w+)\s*:\s*usize\s*=\s*([^;]+);", cmod):
+    for m in re.finditer(r"\bconst\s+(\w+)\s*:\s*(?:usize|i32)\s*=\s*([^;]+);", cmod):
         e = m.group(2)
         for k, v in consts.items():
             e = re.sub(r"\b(?:constants::)?%s\b" % k, str(v), e)
@@ -160,6 +174,22 @@ def gen(repo):
         raise ExtractError("Rabin64::new_with_polynom(<bits>, ..) not found in chunker.rs")
     wbits = int(m.group(1))
     conds = conditions(fn_body(rab, "check_rabin_params"), consts)
+    # polynomial check: `check_rabin_polynomial(poly)` (degree range) called in from_config BEFORE the
+    # tables are computed (Rabin64::new_with_polynom loops forever on a zero polynomial)
+    poly_conds = None
+    mcall = re.search(r"check_rabin_polynomial\(\s*poly\s*\)\s*\?", chk)
+    mnew = re.search(r"Rabin64::new_with_polynom\(", chk)
+    if mcall:
+        if mcall.start() > mnew.start():
+            raise ExtractError("check_rabin_polynomial is called after Rabin64::new_with_polynom")
+        pb = fn_body(rab, "check_rabin_polynomial")
+        mm = re.match(r"\s*let\s+degree\s*=\s*poly\.degree\(\)\s*;", pb)
+        if not mm:
+            raise ExtractError("check_rabin_polynomial does not start with `let degree = poly.degree();`")
+        poly_conds = conditions(pb[mm.end():], consts)
+        dsrc = read(repo_cdc(repo), "src/polynom.rs") if repo_cdc(repo) else None
+        if dsrc is not None and not re.search(r"63\s*-\s*self\.leading_zeros\(\)\s+as\s+i32", dsrc):
+            raise ExtractError("rustic_cdc Polynom64::degree is no longer 63 - leading_zeros")
     defaults = {}
     for n in ("DEFAULT_CHUNK_SIZE", "DEFAULT_CHUNK_MIN_SIZE", "DEFAULT_CHUNK_MAX_SIZE"):
         defaults[n] = int_expr(const_value(cfg, n))
@@ -203,8 +233,22 @@ def gen(repo):
     out.append("")
     out.append("(* smallest fixed chunk size the code accepts (0 = size 0 is accepted) *)")
     out.append("Definition FIXED_SIZE_MIN : N := %d." % fixed_min)
+    out.append("")
+    if poly_conds is None:
+        out.append("(* no check of the chunker polynomial found: every stored u64 is used as it is *)")
+        out.append("Definition poly_accepts_src (P : N) : bool := true.")
+    else:
+        out.append("(* check_rabin_polynomial, called in ChunkIter::from_config before the tables are built:")
+        out.append("   degree = 63 - leading_zeros (-1 for the zero polynomial); error conditions in source order:")
+        for c, _ in poly_conds:
+            out.append("     " + c)
+        out.append("*)")
+        out.append("Definition poly_degree_errors (d : N) : list bool :=\n  [ " + ";\n    ".join(c for _, c in poly_conds) + " ].")
+        out.append("Definition poly_accepts_src (P : N) : bool :=")
+        out.append("  negb (P =? 0) && negb (existsb (fun b => b) (poly_degree_errors (N.log2 P))).")
     meta = {"consts": consts, "prefill": prefill, "window_bits": wbits, "defaults": defaults,
             "conditions": [c for c, _ in conds], "fixed_min": fixed_min,
+            "poly_conditions": None if poly_conds is None else [c for c, _ in poly_conds],
             "fixed_checked_in_apply": fixed_checked_in_apply, "fixed_checked_in_iter": fixed_checked_in_iter}
     return "\n".join(out) + "\n", meta
 
